@@ -16,6 +16,8 @@ WHAT = {
     "C01-7": ('AsyncExecutor: every task obeys the worker-wide `complete` flag: the first client of the named task to finish cuts its sibling clients short', ''),
     "C01-8": ('Driver.joinpoint_reached no longer resets complete_current_task_sent per step: after the first broadcast no later completed-by element ever broadcasts', 'strengthened: two completed-by elements in a row (scenarios TwoCB/TwoAny, generator)'),
     "C01-9": ('move_to_next_task translates the start time to worker clocks with swapped operands (start - d instead of start + d)', 'NOT caught and not a violation of C01 as stated: with finite clock offsets the start of the next element is shifted by 2d on that worker; barrier, exactly-once, completion and completed-by clauses all hold (the statement has no clause about WHEN an element starts)'),
+    "C01-10": ('tasks under `completed-by: any` ignore the worker-wide complete event: the element ends only when its slowest task ends by itself', 'strengthened: action clause CompletedByCuts (a client told to complete does not go on with a task that is not the named one)'),
+    "C01-11": ('may_complete_current_task (any): all(...) instead of any(...): the broadcast waits for every worker hosting an any-task', ''),
     "C02-1": ("over-committed client indices wrap at the parallel's own client count instead of max_clients: ragged matrix when another element is wider", ""),
     "C02-2": ("workers per host taken from the first host: a later host with fewer cores gets more workers than cores", ""),
     "C02-3": ("calculate_worker_assignments gives every host but the last ceil(n/hosts) clients and the last 'the remainder': with >= 3 hosts client ids >= n are handed out", ''),
@@ -24,6 +26,8 @@ WHAT = {
     "C02-6": ('start_worker call slipped into the per-client loop: a worker with k clients receives k StartWorker messages', ''),
     "C02-7": ("schedule_for partitions by the parallel's total clients instead of the task's", "caught by C03 (`ExactCover`); C02's matrix is unaffected"),
     "C02-8": ('schedule created only for the first allocation of a task on a worker: clients share one schedule', "caught by C05 (element leg); C02's matrix is unaffected"),
+    "C02-9": ('same loop-skip change as C01-6 in Worker.drive (bogus join point on an all-padding column)', 'belongs to the race simulation: caught by C01 after the directed Ragged scenario was added (the generated family had caught C01-6 only by the luck of the draw)'),
+    "C02-10": ('update_progress_message runs on every driver wake-up, also after the last join point: IndexError, BenchmarkFailure after BenchmarkComplete', 'belongs to the race simulation: caught by C01 (`NoSpuriousFailure`) once half of the races run with progress reporting on'),
     "C03-1": ("offset table built with character counts instead of tell(): multi-byte corpora > 50,000 lines seek too early", ""),
     "C03-2": ("conflict id drawn with inclusive upper bound: may reference a not-yet-emitted id", ""),
     "C03-3": ("number_of_bulks counts lines instead of documents: with action-and-meta-data lines a group ingests about 2p% instead of p%", ""),
@@ -33,6 +37,8 @@ WHAT = {
     "C03-7": ('corpus-level `includes-action-and-meta-data` default dropped in the loader: only half of the file is read, action lines sent as documents', 'strengthening requested: corpora loaded by the real loader'),
     "C03-8": ('batch_size and bulk_size swapped when the default reader is created', ''),
     "C03-9": ('create_reader called with (num_docs, num_lines) swapped for files with action-and-meta-data lines', ''),
+    "C03-10": ('parameter-source cache keyed by operation (name-equal): two bulk tasks sharing an operation split the corpus between them', 'strengthening requested'),
+    "C03-11": ("used_corpora iterates the user's list: a corpus named twice is read twice", 'strengthening requested'),
     "C04-1": ("`throughput_throttled = rest > 0`: latency of a lagging throttled client falls back to service time", ""),
     "C04-2": ("absolute time taken before the throttling wait: the sample no longer carries its issue time", ""),
     "C04-3": ('throttle wait only `if rest > 0.001`: a request can go out up to 1 ms before its scheduled time', 'strengthening requested: sub-millisecond remainders in the time alphabet'),
@@ -41,6 +47,8 @@ WHAT = {
     "C04-6": ('aiohttp trace config: end handler registered on on_request_chunk_sent: request_end = arrival of the response headers', 'strengthened: wire leg (real client of EsClientFactory.create_async against a scripted loopback server)'),
     "C04-7": ('unit-mismatch check moved out of `weight > 0`: a failed request (0 ops) of a docs/s-throttled task raises before its sample is recorded', ''),
     "C04-8": ('Worker.drive no longer passes buffer_size to Sampler: the queue silently holds 16384 samples', "caught by C07's high-volume leg"),
+    "C04-9": ("nested context propagates its request START into the parent's request END: composite service time 0", 'caught by C18 (`SpanEnd`)'),
+    "C04-10": ('throttle wait sliced and left early when `complete` is set: the pending request goes out before its scheduled time', 'strengthened: completion event strictly inside a throttle wait'),
     "C05-1": ("UnitAwareScheduler: `weight = 1` slipped under `if self.first_request`: pacing w*C/T instead of C/T from the third request", ""),
     "C05-2": ("loop-control timer restarted inside the schedule generator (after the ramp-up sleep)", ""),
     "C05-3": ('Allocator passes total_clients=sub_task.clients: ramp-up delays in a parallel with >= 2 sub-tasks use the wrong divisor', 'strengthening requested: allocations from the real Allocator with ramp-up'),
@@ -49,6 +57,8 @@ WHAT = {
     "C05-6": ('schedule_for slipped under `if task not in params_per_task`: clients of the same task on one worker share one schedule / loop control', ''),
     "C05-7": ("most_recent_sample_per_client.clear without parentheses: the next task's progress starts at the previous 100% and drops", 'strengthening requested: progress reported by the real Driver across tasks'),
     "C05-8": ('ramp-up wait sliced into whole seconds: client i waits ceil(ramp-up*i/total)', ''),
+    "C05-9": ('`any_task_completes_parent` tested instead of `task_completes_parent`: sibling clients of the named task stop early', 'caught by C01 (`CompletedByNamed`)'),
+    "C05-10": ('target-interval read as a per-client interval: C clients run at C times the rate', ''),
     "C06-1": ("update_interval without max(): elapsed time goes backwards for out-of-order arrival", ""),
     "C06-2": ("tuple helper uses the sample's own type instead of the sticky task type", ""),
     "C06-3": ("finish_bucket no longer resets `unprocessed` (sibling of the repaired defect)", ""),
@@ -59,6 +69,8 @@ WHAT = {
     "C06-8": ('calculate() skips samples with total_ops == 0: a task whose requests all fail gets no throughput value', ''),
     "C06-9": ('calculate() tests the stale loop variable `sample.throughput`: runner-supplied throughput recomputed or ordinary tasks get None', 'check fixed: None values are projected instead of crashing the harness'),
     "C06-10": ("throughput unit computed once from the task's first sample: a first failed request labels a docs task ops/s", 'strengthened: mixed units within a task, Unit clause per reported sample'),
+    "C06-11": ('per-task grouping with itertools.groupby: all but the last run of a task in a batch dropped', ''),
+    "C06-12": ('samples sorted by relative_time instead of absolute_time: out-of-order workers counted late', ''),
     "C07-1": ("join-point flush guarded by executor_future (never true): a sample added between send_samples() and done() is lost", "strengthened: worker wake-up split at the executor preemption point (WWakeupA / executor steps / WWakeupB) in model and harness"),
     "C07-2": ("periodic wake-up ships samples only while busy", "superseded: led to the OverPlain scenarios and the genuine fix 328e366, after which the change no longer breaks the property"),
     "C07-3": ("SamplePostprocessor writes latency / processing_time only `if sample.latency:`: a timing of exactly 0.0 loses its record", ""),
@@ -68,6 +80,8 @@ WHAT = {
     "C07-7": ('Sampler.samples copies and clears the deque without the queue mutex: a sample added between copy and clear is lost', "strengthened: accesses to the sampler's deque outside the queue mutex are preemption points for the executor thread"),
     "C07-8": ('Sampler.samples drains at most 16384 samples per call: the rest is dropped at the join-point flush', 'strengthened: high-volume leg (40,000+ samples queued when the task ends)'),
     "C07-9": ("on_task_finished returns early in test mode without sending TaskFinished: intermediate steps' records never reach race control", ''),
+    "C07-10": ('unprocessed samples cleared before the lazy chain is read: carried-over samples dropped from throughput', 'caught by C06 (`Conservation`, driver leg and calculator legs)'),
+    "C07-11": ('Composite: mid-stream gather ASSIGNS the timings: sub-requests before a stream group lose their dependent record', 'caught by C18 (`DependentExact`)'),
     "C08-1": ("throughput median through a helper whose sample_type defaults to None: warm-up samples shift the median", ""),
     "C08-2": ("GlobalStats.metrics(task) matches task OR operation name: a task gets another task's metrics when names collide", "strengthened: colliding task/operation names"),
     "C08-3": ("percentile rank rounded to 2 decimals: p99.9/p99.99 deviate from the linear interpolation for >= 1000 samples", "strengthened: exact interpolation promoted from L2 to L1"),
@@ -77,6 +91,8 @@ WHAT = {
     "C08-7": ("single_latency takes the sample size from the task's service_time records: wrong percentile set / lost latency results", ''),
     "C08-8": ('encode_float_key formats with .1f: p99.99 collides with p100 for >= 10,000 samples', 'strengthening requested: every percentile threshold crossed, stored key set compared'),
     "C08-9": ('race.json read without encoding=utf-8: non-ASCII races vanish under a non-UTF-8 locale', 'strengthening requested: read-back in a child interpreter with LC_ALL=C'),
+    "C08-10": ('get_mean drops sample_type: with the Elasticsearch store the mean includes warm-up samples', 'strengthening requested: query leg for EsMetricsStore'),
+    "C08-11": ('zgc_pauses_gc_count read back from the zgc_cycles key', ''),
     "C09-1": ("worker no longer checks the executor's outcome between task rows of an over-committed parallel: the failed future is overwritten", "strengthened: OverPlain scenarios in the fault families"),
     "C09-2": ("race control releases the driver before storing the final samples: a failure in the final hand-over becomes a dead letter", ""),
     "C09-3": ("De Morgan slip `not (cancelled and error)`: results stored after a failure or a cancellation alone", ""),
@@ -86,6 +102,8 @@ WHAT = {
     "C09-7": ('DriverActor drops BenchmarkFailure once driver.finished(): a store failure while the LAST join point is processed is never reported', ''),
     "C09-8": ('no_retry removed from DriverActor.receiveMsg_WakeupMessage: a store failure in periodic post-processing is retried and swallowed', ''),
     "C09-9": ('AsyncIoAdapter gathers with return_exceptions=True: a failure is reported only when the sibling clients of the worker are done', 'strengthened: directed races where a client fails next to an eternal sibling of the same executor'),
+    "C09-10": ('fatal-ConnectionError test behind `if e.errors:`: a connection error with attached retry errors is no longer fatal', 'strengthened: connection error variant with attached errors of earlier attempts'),
+    "C09-11": ('Worker wake-up checks executor_future.done() before cancel.is_set()', 'NOT reachable through the actor protocol: `cancel` is only ever set in receiveMsg_ActorExitRequest, after which the worker actor is gone and handles no further wake-up; a user cancellation reaches race control and the driver exits with its workers (modelled as FCancel / DRecvFromRc); the property holds on the changed tree'),
     "C10-1": ("mixing checks by truthiness: warmup-iterations 0 with time-period is loaded", ""),
     "C10-2": ("nested rally.collect resolved against the track root instead of the fragment's directory", "strengthened: two-level includes with the outer part in a sub-directory"),
     "C10-3": ('duplicate-name check fused into the schedule loop with sets: duplicates inside ONE parallel element are loaded', ''),
@@ -94,6 +112,8 @@ WHAT = {
     "C10-6": ("exists_set_param macro uses jinja's boolean default: falsy user parameters (0, false, '') are replaced by the default", 'strengthened: macro in the template alphabet x falsy/truthy/absent parameter values'),
     "C10-7": ('jinja autoescape switched on: & < > quotes in parameters and literals are loaded HTML-escaped', 'strengthened: special characters in names, literals and parameter values'),
     "C10-8": ('unused-parameter check moved before read_track: parameters used only in index bodies / templates are rejected', 'strengthened: parameters used only in side files'),
+    "C10-9": ('track params passed as render context instead of env.globals: not visible in imported macros / macro-collected parts', 'strengthened: imported macro files, single-quoted rally.collect'),
+    "C10-10": ("base-url variable shadowed in the document-set loop: a later set inherits an earlier sibling's base-url", 'strengthened: base-url per document set in the compared core'),
     "C11-1": ("emptied parallel dropped only if `task.clients == 0`: one with an explicit clients value stays", ""),
     "C11-2": ("single string tag no longer wrapped in a list: tag filter does a substring test", "strengthened: single-string tags and tag alphabets with substrings; projection mismatch is L1/drift instead of a machinery failure"),
     "C11-3": ('removal of an emptied parallel guarded by `task not in tasks_to_remove` (== compares task lists): a second emptied parallel stays', ''),
@@ -102,6 +122,8 @@ WHAT = {
     "C11-6": ('removal loop dedented out of the per-challenge loop: only the last challenge is filtered', ''),
     "C11-7": ('filter values lower-cased: filters are no longer case-sensitive', ''),
     "C11-8": ('the completed-by task is never filtered out', ''),
+    "C11-9": ('filtering collects removals over ALL challenges and compares with Task.__eq__: namesakes in other challenges vanish', 'strengthening requested'),
+    "C11-10": ('type: filter values rewritten _ -> -: custom operation types with underscores no longer match', 'strengthening requested'),
     "C12-1": ("MechanicActor children sized by distinct IPs instead of (ip, port) pairs", ""),
     "C12-2": ("departures of daemons 'not awaited' ignored: join-then-leave is never reported", ""),
     "C12-3": ("ProcessLauncher.stop skips storing system metrics for a node whose process is already gone", "strengthened: real ProcessLauncher.stop with node-process conditions (early / late / stubborn)"),
@@ -111,6 +133,8 @@ WHAT = {
     "C12-7": ('stop_engine flushes the metrics store BEFORE stopping the nodes: shutdown metrics missing from the stored results (buffering store)', 'strengthened: buffering system metrics store, clause ShutdownMetricsStored'),
     "C12-8": ('received_responses not reset on StartEngine: confirmations of a failed start count for the next one', 'strengthened: restart after a failed start'),
     "C12-9": ('one NodeMechanicActor per remote ip instead of per (ip, port)', ''),
+    "C12-10": ('a failure while starting removes a placeholder child: EngineStarted follows BenchmarkFailure', ''),
+    "C12-11": ("stop_engine returns when the race is unknown to the host's race store: install and data directories stay", 'strengthening requested'),
     "C13-1": ("config-base variables merged with setdefault: the first car's base wins over a later car's base", ""),
     "C13-2": ("cleanup skips data paths that string-prefix-match the install dir: a sibling named after the ES home survives", "strengthened: name-prefix sibling data paths in the universe"),
     "C13-3": ("ElasticsearchInstaller.variables updates car.variables in place: node defaults leak into the shared Car, node 2 gets node 1's data paths", 'strengthening requested: several nodes provisioned from one Car object'),
@@ -119,6 +143,8 @@ WHAT = {
     "C13-6": ("DockerProvisioner merges variables in the wrong order: car variables override Rally's node variables on the docker path", 'strengthening requested: docker provisioning path'),
     "C13-7": ('rendered templates appended without encoding=utf-8: provisioning breaks under a non-UTF-8 locale', 'strengthening requested: child interpreter with LC_ALL=C'),
     "C13-8": ('car params applied only to cars with a config base: a later base-less mixin wins over --car-params', ''),
+    "C13-9": ('one Jinja environment per base searching all directories, lookup by base name: same file name in two directories renders the first', 'strengthening requested'),
+    "C13-10": ('docker path opens rendered templates with mode w: a later base overwrites instead of appending', ''),
     "C14-1": ("offset table built with encoded line lengths: CRLF corpora >= 50,000 lines get wrong offsets", "strengthened: CRLF variant of the large document"),
     "C14-2": ("_download_http prefers the server's Content-Length over the declared size: a wrong-sized download is renamed to the final name", ""),
     "C14-3": ("offset table not removed before the line-count DataError: a plain retry finds a 'valid' table and accepts the wrong corpus", 'strengthening requested: first run ending with the explicit line-count error'),
@@ -127,6 +153,8 @@ WHAT = {
     "C14-6": ('`extracted_bytes != uncompressed_size` became `<`: an archive that expands to more than declared is re-inflated forever', 'strengthened: archives expanding to more than declared, livelock end kind'),
     "C14-7": ('download retry loop one iteration short: after 10 failed attempts None is returned and the partial .tmp renamed', ''),
     "C14-8": ('enforce_content_length dropped and the downloaded size not assigned: a cleanly closed short body is accepted when sizes are undeclared', 'strengthened: short bodies with undeclared sizes'),
+    "C14-9": ('read timeout dropped from the download: a silent connection blocks for ever', 'strengthening requested'),
+    "C14-10": ('offset table validity compares whole seconds', 'strengthening requested'),
     "C15-1": ("walrus unrolled into a truthiness test: a `.0` minor branch is skipped again", ""),
     "C15-2": ("remote branch name cut at the last slash: origin/backport/7.9 becomes 7.9", "strengthened: git leg uses path-like unrelated branch names whose last component looks like the wanted version"),
     "C15-3": ("_latest_major ignores patch/suffix branches: master chosen although a newer major exists as patch branch", ""),
@@ -136,6 +164,8 @@ WHAT = {
     "C15-7": ('git fetch lost --prune: branches deleted upstream stay as remote-tracking refs and keep being selected', 'strengthened: branches deleted upstream after the clone'),
     "C15-8": ('`current_branch != branch` became `not current_branch.endswith(branch)`: stays on 6.7 although 7 was selected', ''),
     "C15-9": ('git checkout replaced by git switch: tags cannot be checked out, the v-tag fallback fails', ''),
+    "C15-10": ('latest_bounded_minor accepts minor branches of an OLDER major', ''),
+    "C15-11": ('git clone --depth 1 (single branch): only master is ever seen', ''),
     "C16-1": ("except clauses merged: other TransportErrors are swallowed, slept on and retried", ""),
     "C16-2": ("Retry caches its evaluated parameters on the (shared, registered-once) instance: the first call's settings govern all later calls", ''),
     "C16-3": ('explicit `retry-until-success: false` ignored when the runner was constructed with retry_until_success=True', ''),
@@ -143,6 +173,8 @@ WHAT = {
     "C16-5": ("`return_value.get('success')` without default: a dict result without the key counts as failure", ''),
     "C16-6": ('retry settings read with params.pop: gone from the shared params dict on the second invocation', 'strengthening requested: histories reusing one params dict, ParamsUntouched'),
     "C16-7": ('await dropped before asyncio.sleep after connection errors: no pause', ''),
+    "C16-8": ('retry-wait-period read with `or 0.5`: an explicit 0 becomes 0.5', ''),
+    "C16-9": ('retry-until-success also forces retry-on-timeout', ''),
     "C17-1": ("all 5xx status codes retryable", ""),
     "C17-2": ("retry branch logs e.body.get('error',{}).get('reason'): a 429/5xx with a str body or a string `error` raises AttributeError instead of retrying", 'strengthening requested: error body shapes in the fault alphabet'),
     "C17-3": ("bulk_index passes a lazy generator into guarded(): retries send nothing and 'succeed'", ''),
@@ -150,6 +182,8 @@ WHAT = {
     "C17-5": ('bulk helper called with max_retries=2: 429s retried underneath guarded() with foreign sleeps', ''),
     "C17-6": ('SSLError (a ConnectionError subclass) raised at once instead of retried', 'strengthening requested: concrete classes of connection errors'),
     "C17-7": ('bulk item errors classified only over the first ten items', ''),
+    "C17-8": ('bulk items classified against [503, 429] only: 502/504 items are unretryable', ''),
+    "C17-9": ('ConnectionTimeout not retried for bulk_index / index', ''),
     "C18-1": ("__exit__ propagates the child's timing only when no exception is in flight: failed sub-requests are not spanned", "strengthened: exceptional exits of nested contexts / failing sub-requests (which also exposed the genuine defect fixed by f822262)"),
     "C18-2": ("run_stream: `pending, streams = streams, []` before awaiting a mid-list group: a failing stream's siblings are neither cancelled nor awaited", ''),
     "C18-3": ("one RequestTiming per operation type kept on the shared Composite runner: overlapping sub-requests overwrite each other's context", ''),
@@ -157,6 +191,8 @@ WHAT = {
     "C18-5": ('same change as C04-6 (end stamped at the response headers)', 'strengthened: wire leg'),
     "C18-6": ("max-connections semaphore cached on the shared Composite runner: clients wait for each other's slots", 'strengthening requested: cross-client independence with the limit reached'),
     "C18-7": ('absolute_time of a sub-request taken at construction, before it waits for a connection', 'strengthening requested: absolute_time and request_start denote the same instant'),
+    "C18-8": ("nested context is a ChainMap over the parent: a sub-request reads the parent's start as its own", ''),
+    "C18-9": ('update_request_start compares with request_end: overlapping requests overwrite the start', ''),
     "C19-1": ("flat-object member key taken as the last path segment: dotted composite source names collapse", "strengthened: dotted member names inside requested flat objects"),
     "C19-2": ("fast-path error count = number of DISTINCT (status, reason) pairs", ""),
     "C19-3": ("requested object never left at end_map: later scalars pollute the extracted after_key", ""),
@@ -166,6 +202,8 @@ WHAT = {
     "C19-7": ('detailed_stats: `_shards.failed > 0` overwrites the status check: an error item with _shards.failed 0 counts as success in the detailed path', 'strengthened: bulk items status x _shards x op types'),
     "C19-8": ('search_after cursor decoded as latin-1: non-ASCII sort values become mojibake', ''),
     "C19-9": ('flat-object numbers normalised through float: integers above 2^53 change', ''),
+    "C19-10": ('cursor extraction decodes only the last 4096 bytes of the page', ''),
+    "C19-11": ('parse() stops at hits.hits: properties serialised after the hits array fall back to defaults', ''),
     "C20-1": ("transform throughput direction flag lost in a de-duplication refactoring", ""),
     "C20-2": ("threshold computed before the percentage branch: +0.00% coloured", ""),
     "C20-3": ("`n / d` instead of `n / abs(d)`: the repaired negative-baseline defect re-introduced", ""),
@@ -175,10 +213,12 @@ WHAT = {
     "C20-7": ('per-field disk usage formatted with bytes_to_human_value: baseline, contender and diff scaled to different units', ''),
     "C20-8": ("GlobalStats.metrics(task) matches the operation name too: per-task comparison lines show another task's values", 'strengthened: colliding task/operation names in the compared races'),
     "C20-9": ('ML processing-time loop uses break instead of continue: lines of later jobs vanish', ''),
+    "C20-10": ('De Morgan slip in per-field disk usage: a stat that is 0 on one side is dropped', ''),
+    "C20-11": ('report file opened without encoding=utf-8: truncated under a non-UTF-8 locale', 'strengthened: locale leg (child interpreter under LC_ALL=C)'),
 }
 
 
-NOT_A_VIOLATION = {"C01-9"}  # adjudicated: the change does not break the property as stated (see the note in its row)
+NOT_A_VIOLATION = {"C01-9", "C09-11"}  # adjudicated: the change does not break the property as stated (see the note in its row)
 
 
 def main():
